@@ -292,6 +292,14 @@ def run(pid, tier, seed, replay):
             sent[tok] = Tok(tok)
         for u in c["user"]:
             sent[u["val"]] = (Twin if rng.random() < 0.4 else Tok)(u["val"])
+        # values a library is tempted to read as "absent": None and the other falsy singletons, passed explicitly
+        # (compared by identity like every sent value; two equal singletons in one call are indistinguishable, nothing more)
+        singletons = 0
+        for tok in list(sent):
+            if rng.random() < 0.12:
+                sent[tok] = rng.choice([None, None, False, 0, "", (), 0.0])
+                singletons += 1
+        feats["falsy_singleton_sent"] = singletons > 0
         feats["equal_to_default_value_sent"] = any(
             type(sent[u["val"]]) is Twin and any(p["name"] == u["name"] and p["hasdef"] for p in c["sig"]) for u in c["user"])
         try:
@@ -329,7 +337,7 @@ def run(pid, tier, seed, replay):
                     bad.append((b["name"], "default", repr(got.get(b["name"], "<absent>"))[:40]))
         if any(p["kind"] == "VP" for p in c["sig"]):
             ga = list(got.get("args", ()))
-            if ga != list(r["varpos"]) or not all(matches(t, v, sm, group, ctx, sent) for t, v in zip(r["varpos"], ga)):
+            if len(ga) != len(r["varpos"]) or not all(matches(t, v, sm, group, ctx, sent) for t, v in zip(r["varpos"], ga)):
                 bad.append(("*args", r["varpos"], repr(got.get("args"))[:60]))
         if any(p["kind"] == "VK" for p in c["sig"]):
             kw = got.get("kwargs", {})
@@ -352,7 +360,8 @@ def run(pid, tier, seed, replay):
                  "positional-or-keyword, *args, keyword-only, **kwargs with every default pattern; names drawn from a,b,k,x and the "
                  "built-in names; call shapes: 0-3 positional arguments x random subsets of user keywords incl. the parameters' own names, "
                  "an undeclared name and attempted overrides of built-ins; callable kinds: method on machine/model/listener, function, "
-                 "partial, coroutine; groups on/before/after/cond/enter/validators; distinct = (signature, #positionals, keyword names)")})
+                 "partial, coroutine; groups on/before/after/cond/enter/validators; sent values compared by identity, 12% of them None or "
+                 "another falsy singleton; distinct = (signature, #positionals, keyword names)")})
     chk.assumptions += ["the corner `positional-only parameter without positional argument but same-named keyword` is left unspecified "
                         "and skipped (Python cannot pass it by name)"]
     return chk.finish()
